@@ -3,6 +3,7 @@ package sim
 import (
 	"fmt"
 	"runtime/debug"
+	"sort"
 	"testing"
 	"testing/synctest"
 
@@ -49,6 +50,16 @@ func RunPlan(t *testing.T, p *plan.Plan, trace bool, emitEarly func(*EpisodeResu
 	if !ok {
 		res.Fatal = "no runner for property " + p.Prop
 		return
+	}
+	// slot numbering of script variables: sorted, then permuted by the episode seed
+	tengo.VerifOrder = func(names []string) []string {
+		sort.Strings(names)
+		r := plan.NewRng(p.Seed ^ 0x51ed270b)
+		for i := len(names) - 1; i > 0; i-- {
+			j := r.Intn(i + 1)
+			names[i], names[j] = names[j], names[i]
+		}
+		return names
 	}
 	oldS, oldB := tengo.MaxStringLen, tengo.MaxBytesLen
 	if p.Cfg.MaxStringLen > 0 {
